@@ -32,13 +32,13 @@ void h_lemma_extract_term(void) {
  *   q = g - a;  q >= 0: (q, +);  -N <= q < 0: (q+N, -);  q < -N: (q+2N, +).                              */
 #include "c_poly.h"
 int32_t g_k, g_N;
+#ifndef LEMMA_NMAX
+#define LEMMA_NMAX VERIF_NMAX
+#endif
 /* all quantities are bounded by 3N <= 3e8: 32-bit arithmetic is exact here */
 static inline int32_t sig_idx(int32_t N, int32_t a, int32_t g) { int32_t q = g - a; return q >= 0 ? q : (q >= -N ? q + N : q + 2 * N); }
 static inline int sig_neg(int32_t N, int32_t a, int32_t g) { int32_t q = g - a; return q >= 0 ? 0 : (q >= -N ? 1 : 0); }
 
-#ifndef LEMMA_NMAX
-#define LEMMA_NMAX VERIF_NMAX
-#endif
 void h_lemma_monomial(void) {
     int32_t N, a, b, g;
     __CPROVER_assume(N >= 1 && N <= LEMMA_NMAX && a >= 0 && a < 2 * N && b >= 0 && b < 2 * N && g >= 0 && g < N);
@@ -70,7 +70,7 @@ void h_lemma_monomial(void) {
  * With v == (mu,...,mu) this is +mu on [0,N) and -mu on [N,2N). */
 void h_lemma_testvector(void) {
     int32_t N, p;
-    __CPROVER_assume(N >= 1 && N <= VERIF_NMAX && p >= 0 && p < 2 * N);
+    __CPROVER_assume(N >= 1 && N <= LEMMA_NMAX && p >= 0 && p < 2 * N);
     int32_t a = (p != 0) ? 2 * N - p : 0;           /* exponent used by blindRotateAndExtract (copy when p == 0) */
     int32_t m = sig_idx(N, a, 0); int neg = sig_neg(N, a, 0);
     __CPROVER_assert(p < N ? (m == p && !neg) : (m == p - N && neg), "coefficient 0 of X^(2N-p)*v is v_ext[p]");
